@@ -75,6 +75,18 @@ class LeafFalseNode(OptNode):
         return bool(self.nodes_from)
 
 
+class NeverTrueNode(OptNode):
+    """__bool__ is always False"""
+    def __bool__(self):
+        return False
+
+
+class ZeroLenNode(OptNode):
+    """__len__ is always 0: every instance is falsy"""
+    def __len__(self):
+        return 0
+
+
 class KeyEqNode(OptNode):
     """value-based equality on a key that is unique inside a graph (consistent __hash__)"""
     def __eq__(self, other):
@@ -84,7 +96,8 @@ class KeyEqNode(OptNode):
         return hash(self.content['name'])
 
 
-NODE_KINDS = {'plain': OptNode, 'len': JoinNode, 'leaf-false': LeafFalseNode, 'key-eq': KeyEqNode}
+NODE_KINDS = {'plain': OptNode, 'len': JoinNode, 'leaf-false': LeafFalseNode, 'key-eq': KeyEqNode,
+              'never-true': NeverTrueNode, 'zero-len': ZeroLenNode}
 GRAPH_KINDS = ('opt', 'first-sink', 'strict-root', 'delegate-first-sink', 'delegate-strict-root')
 STOCK = ('plain', 'opt')
 
@@ -697,7 +710,7 @@ def run(ctx):
                 'structured digraphs on 1..12 nodes (DAGs of several densities, DAG + back edge, self-loops, '
                 'forests, chains, layered, disjoint unions) under random listing order and parent order; every node '
                 'is a query argument; the same queries on graphs of USER SUBCLASSES (LinkedGraph subclasses overriding root_node, '
-                'directly and as GraphDelegate delegate_cls; node subclasses with __len__, __bool__, key-based __eq__/__hash__); '
+                'directly and as GraphDelegate delegate_cls; node subclasses with __len__, __bool__ (also ALWAYS falsy ones), key-based __eq__/__hash__); '
                 'LARGE graphs of 15..500 nodes in three node orders and three builders; distinct = distinct parent-list structure; non-trivial = >= 2 nodes and >= 1 edge')
     ctx.trusted_extra = [
         'node identity is modelled by the position in graph.nodes (GOLEM nodes compare by identity and carry '
